@@ -15,6 +15,8 @@ pub struct TraitFn {
     pub attrs: Vec<syn::Attribute>,
     pub entrait_sig: EntraitSignature,
     pub originally_async: bool,
+    /// The default body of a method of an entraited trait
+    pub default_body: Option<syn::Block>,
 }
 
 impl TraitFn {
@@ -77,6 +79,7 @@ impl TraitFnAnalyzer<'_> {
             attrs: vec![],
             entrait_sig,
             originally_async: input_sig.asyncness.is_some(),
+            default_body: None,
         })
     }
 }
